@@ -359,6 +359,8 @@ class SimThread:
         if self._st is None:
             raise RuntimeError("cannot join thread before it is started")
         st = self._st
+        if st is _W().current:
+            raise RuntimeError("cannot join current thread")       # as threading.Thread.join does
         if not st.done:
             _W().block(lambda: st.done, timeout)
 
@@ -866,6 +868,8 @@ def install():
         st = getattr(self, "_sim_st", None)
         if st is None:
             raise RuntimeError("cannot join thread before it is started")
+        if st is _W().current:
+            raise RuntimeError("cannot join current thread")       # as threading.Thread.join does
         if not st.done:
             _W().block(lambda: st.done, timeout)
 
